@@ -154,9 +154,14 @@ func (p *parser) parseExpr() (SExpr, error) {
 				return nil, fmt.Errorf("quantifier: expected variable name")
 			}
 			v := SVar{Name: n.text}
+			star := ""
+			if p.isOp("*") && p.pos+1 < len(p.toks) && p.toks[p.pos+1].kind == "ident" {
+				p.next() // pointer type
+				star = "*"
+			}
 			if p.peek().kind == "ident" {
 				// type, possibly qualified
-				ty := p.next().text
+				ty := star + p.next().text
 				for p.isOp(".") {
 					p.next()
 					ty += "." + p.next().text
@@ -506,6 +511,7 @@ type FuncContract struct {
 	HasAssign bool
 	Loops     map[string]*LoopSpec
 	Inline    bool
+	InlineCalls []string // callees inlined inside this unit only
 	Trusted   bool   // contract is assumed, body not verified
 	MayPanic  bool   // explicit panics allowed
 	Wire      []string // parameters holding wire-decoded data (arbitrary)
@@ -734,10 +740,13 @@ func (db *ContractDB) parseFile(pkgPath, file, src string) error {
 				}
 			}
 			curF = &FuncContract{Key: key, File: file, Loops: map[string]*LoopSpec{}, CallAsserts: map[string][]Clause{}, Trusted: true, Extern: pkgPath}
-			if db.Externs[pkgPath] == nil {
-				db.Externs[pkgPath] = map[string]*FuncContract{}
+			// assumed contracts of callees are scoped by contract file: two files of one
+			// package may describe the same callee at different levels of abstraction
+			ek := pkgPath + "|" + file
+			if db.Externs[ek] == nil {
+				db.Externs[ek] = map[string]*FuncContract{}
 			}
-			db.Externs[pkgPath][key] = curF
+			db.Externs[ek][key] = curF
 		case "func":
 			curT = nil
 			key := rest
@@ -975,8 +984,15 @@ func (db *ContractDB) parseFile(pkgPath, file, src string) error {
 				curF.Havoc = append(curF.Havoc, strings.Fields(rest)...)
 			}
 		case "inline":
+			// "inline" alone: the function itself is inlined at its call sites;
+			// "inline <callee>": in this unit, calls of <callee> are executed on its body even
+			// though a contract for it exists (its loops take their specs from this unit)
 			if curF != nil {
-				curF.Inline = true
+				if rest == "" {
+					curF.Inline = true
+				} else {
+					curF.InlineCalls = append(curF.InlineCalls, strings.Fields(rest)...)
+				}
 			}
 		case "trusted":
 			if curF != nil {
